@@ -5,6 +5,7 @@ package cdom
 import (
 	"encoding/json"
 	"fmt"
+	"path"
 	"strings"
 
 	"lcverif/common"
@@ -100,9 +101,12 @@ func step(kind, a, b string, flag bool) lcw.StepIn {
 }
 
 func kmount(src, tgt, fstype string, flags uint64, data string) lcw.StepIn {
-	return lcw.StepIn{Cmd: lcw.Cmd{Kind: "kmount", A: src, B: tgt + "|" + fstype + "|" + data, C: fmt.Sprint(flags)}}
+	// a hand-made mount is recorded on the path the kernel resolves it to
+	return lcw.StepIn{Cmd: lcw.Cmd{Kind: "kmount", A: src, B: path.Clean(tgt) + "|" + fstype + "|" + data, C: fmt.Sprint(flags)}}
 }
-func kumount(tgt string) lcw.StepIn { return lcw.StepIn{Cmd: lcw.Cmd{Kind: "kumount", A: tgt}} }
+func kumount(tgt string) lcw.StepIn {
+	return lcw.StepIn{Cmd: lcw.Cmd{Kind: "kumount", A: path.Clean(tgt)}}
+}
 
 func buildPath(cfg lcw.Cfg, name string) string { return cfg.Layers + "/" + name + "/" + cfg.BuildRoot }
 
@@ -175,7 +179,15 @@ func priorMounts(r *rng.R, ws lcw.WorldSpec, cfg lcw.Cfg, disturb bool) []lcw.St
 		for k := r.Intn(3); k > 0; k-- {
 			l := pickLayer(r, ws)
 			mps := mountpointsOf(cfg, l)
-			switch r.Intn(4) {
+			switch r.Intn(5) {
+			case 4: // a foreign mount of the SAME file-system type on the mountpoint of a non-bind import
+				for _, m := range l.Imports {
+					mp := buildPath(cfg, l.Name) + m.Mount
+					if m.Fstype != "bind" && m.Fstype != "rbind" {
+						steps = append(steps, kumount(mp), kmount("other-"+m.Source, mp, m.Fstype, 0, ""))
+						break
+					}
+				}
 			case 0: // unmount one import by hand (partial mount)
 				if len(mps) > 0 {
 					steps = append(steps, kumount(mps[len(mps)-1-r.Intn(len(mps))]))
